@@ -10,7 +10,7 @@
    position t; [kept_at m i] is the mask read under broadcasting (true without a mask);
    [bget]/[brow] read an element / a feature row under broadcasting. *)
 From Coq Require Import List Arith Bool ZArith QArith Permutation Lia Lqa.
-From PV Require Import C20.Model C20.Spec C20.Sums C20.Index C20.Proofs.
+From PV Require Import C20.Model C20.Spec C20.Sums C20.Index C20.Proofs C20.Broadcast C20.MHA C20.MHARel.
 Import ListNotations.
 Local Open Scope nat_scope.
 
@@ -74,3 +74,156 @@ Theorem c20_attention_permutation_invariant :
   (tat out' (c :: j) == tat out (c :: j))%Q.
 Proof. exact attention_permutation_invariant. Qed.
 Print Assumptions c20_attention_permutation_invariant.
+
+(* "every attention flavour": the four theorems above hold for an arbitrary score function, in
+   particular for dot-product (any scale), generalised (any W, bias or not) and concat (any W,
+   bias, v, any tanh) - spelled out for the range clause *)
+Theorem c20_range_every_flavour :
+  forall expf tanhf fl q k v m p qs ks out,
+  (forall x, (0 < expf x)%Q) ->
+  attend expf (score tanhf fl) q k v m p qs ks = Some out -> seq_agree k v p ->
+  forall c j lo hi, valid (tshape out) (c :: j) ->
+  (exists t, t < nth p (tshape k) 0 /\ kept_at m (ins (p - 1) t j) = true) ->
+  (forall t, t < nth p (tshape k) 0 -> kept_at m (ins (p - 1) t j) = true ->
+             (lo <= bget v (c :: ins (p - 1) t j) <= hi)%Q) ->
+  (lo <= tat out (c :: j) <= hi)%Q.
+Proof. exact (fun expf tanhf fl => attention_in_kept_range expf (score tanhf fl)). Qed.
+Print Assumptions c20_range_every_flavour.
+
+(* "Broadcasting a query against batched keys gives the same result as explicitly expanding
+   it, for every legal sequence dimension": the whole output tensor is the same (p arbitrary) *)
+Theorem c20_broadcast_query_eq_expanded :
+  forall expf sc q k v m p qs ks out es,
+  attend expf sc q k v m p qs ks = Some out ->
+  bshape (tl (tshape (unsq p q))) (tl (tshape k)) = Some es ->
+  attend expf sc (q_expanded q p es) k v m p qs ks = Some out.
+Proof. exact broadcast_query_eq_expanded. Qed.
+Print Assumptions c20_broadcast_query_eq_expanded.
+
+(* "for every legal sequence dimension": a legal dim resolves to an r-position in range, and
+   its negative spelling (dim - rank, legal for dim >= 1) resolves to the same axis *)
+Theorem c20_sequence_dimension_resolution :
+  forall (dim : Z) (kr : nat),
+  (0 <= dim < Z.of_nat kr - 1)%Z ->
+  axis_pos dim kr = Some (kr - 1 - Z.to_nat dim)
+  /\ 1 <= kr - 1 - Z.to_nat dim < kr
+  /\ ((1 <= dim)%Z -> axis_pos (dim - Z.of_nat kr) kr = axis_pos dim kr).
+Proof. exact axis_pos_legal. Qed.
+Print Assumptions c20_sequence_dimension_resolution.
+
+(* "Multi-headed attention equals projecting ..., running the wrapped single-head attention
+   per head, concatenating and projecting again": the model of MultiHeadedAttention.forward
+   (projections, unflatten, mask.unsqueeze(-1), ONE call of the wrapped attention on tensors
+   with a head axis, flatten, projection) agrees everywhere with [mha_spec] (Spec.v), in which
+   the wrapped attention is called once per head on that head's block of features with the
+   caller's mask; and each of those per-head calls is accepted *)
+Theorem c20_multihead_is_composition :
+  forall expf sc P q k v m p qs ks vs out,
+  mha expf sc P q k v m p 0 qs ks vs = Some out ->
+  length (WQ P) = num_heads P * d_q P ->
+  length (WK P) = num_heads P * d_k P ->
+  length (WV P) = num_heads P * d_v P ->
+  seq_agree k v p ->
+  (forall h, h < num_heads P -> exists o, head expf sc P q k v m p h = Some o) /\
+  (forall i, valid (tshape out) i ->
+             (tat out i == tat (mha_spec expf sc P q k v m p (tl (tshape out))) i)%Q).
+Proof. exact multihead_is_composition. Qed.
+Print Assumptions c20_multihead_is_composition.
+
+(* "every attention flavour ... multi-headed": the multi-headed output does not change when
+   keys and values at masked positions are replaced by anything (whole feature rows, since the
+   projections mix features), for arbitrary projection parameters *)
+Theorem c20_multihead_blind_to_masked :
+  forall expf sc P q k v k' v' m p qs ks vs out out',
+  mha expf sc P q k v m p 0 qs ks vs = Some out ->
+  mha expf sc P q k' v' m p 0 qs ks vs = Some out' ->
+  tshape k' = tshape k -> tshape v' = tshape v ->
+  length (WQ P) = num_heads P * d_q P ->
+  length (WK P) = num_heads P * d_k P ->
+  length (WV P) = num_heads P * d_v P ->
+  seq_agree k v p ->
+  forall c j, valid (tshape out) (c :: j) ->
+  (forall t, t < nth p (tshape k) 0 -> kept_at m (ins (p - 1) t j) = true ->
+             brow k' (ins (p - 1) t j) = brow k (ins (p - 1) t j)
+             /\ brow v' (ins (p - 1) t j) = brow v (ins (p - 1) t j)) ->
+  (tat out' (c :: j) == tat out (c :: j))%Q.
+Proof. exact multihead_blind_to_masked. Qed.
+Print Assumptions c20_multihead_blind_to_masked.
+
+(* ... and it does not change when the sequence positions are permuted consistently *)
+Theorem c20_multihead_permutation_invariant :
+  forall expf sc P q k v m k' v' m' p qs ks vs out out' (sigma : nat -> nat),
+  mha expf sc P q k v m p 0 qs ks vs = Some out ->
+  mha expf sc P q k' v' m' p 0 qs ks vs = Some out' ->
+  tshape k' = tshape k -> tshape v' = tshape v -> mask_shape m' = mask_shape m ->
+  length (WQ P) = num_heads P * d_q P ->
+  length (WK P) = num_heads P * d_k P ->
+  length (WV P) = num_heads P * d_v P ->
+  seq_agree k v p ->
+  Permutation (map sigma (seq 0 (nth p (tshape k) 0))) (seq 0 (nth p (tshape k) 0)) ->
+  forall c j, valid (tshape out) (c :: j) ->
+  (forall t, t < nth p (tshape k) 0 ->
+             brow k' (ins (p - 1) t j) = brow k (ins (p - 1) (sigma t) j)
+             /\ brow v' (ins (p - 1) t j) = brow v (ins (p - 1) (sigma t) j)
+             /\ kept_at m' (ins (p - 1) t j) = kept_at m (ins (p - 1) (sigma t) j)) ->
+  (tat out' (c :: j) == tat out (c :: j))%Q.
+Proof. exact multihead_permutation_invariant. Qed.
+Print Assumptions c20_multihead_permutation_invariant.
+
+(* "(with a bias exactly on the projections for which one was requested)": a projection
+   built without a bias is the bare matrix product, one built with bias b adds b and nothing
+   else; [mha] and [mha_spec] use [linear (W? P) (b? P)] for the four projections *)
+Theorem c20_projection_bias_exactly_where_requested :
+  forall W t c i,
+  (forall b, tat (linear W (Some b) t) (c :: i) = (tat (linear W None t) (c :: i) + nth c b 0%Q)%Q)
+  /\ tat (linear W None t) (c :: i)
+     = dotq (map (fun j => tat t (j :: i)) (seq 0 (hd 0 (tshape t)))) (nth c W []).
+Proof. exact linear_bias_exact. Qed.
+Print Assumptions c20_projection_bias_exactly_where_requested.
+
+(* the exp-oracle the correspondence check hands to the model (a table of torch's float64
+   results, 1 where the table has no entry) is positive, i.e. it is one of the functions the
+   theorems above quantify over *)
+Theorem c20_oracle_exp_positive :
+  forall tbl, (forall kv, In kv tbl -> (0 < snd kv)%Q) -> forall x, (0 < lookup tbl x)%Q.
+Proof. exact lookup_positive. Qed.
+Print Assumptions c20_oracle_exp_positive.
+
+(* non-vacuity: a concrete masked, batched input is accepted and meets every hypothesis of the
+   theorems above (key (T=3, N=2, K=1), query (N=2, Q=1), value (3, 2, D=2), mask (3, 2)) *)
+Example c20_nonvacuous :
+  let expf := fun x : Q => (x * x + 1)%Q in
+  let q0 := qt [1; 2] [1; -2]%Q in
+  let k0 := qt [1; 2; 3] [1; 0; 2; 1; -1; 3]%Q in
+  let v0 := qt [2; 2; 3] [1; 2; 3; 4; 5; 6; 7; 8; 9; 10; 11; 12]%Q in
+  let m0 := Some (bt [2; 3] [true; false; true; true; false; true]) in
+  exists out,
+    attend expf (score (fun x => x) (Dot 1)) q0 k0 v0 m0 2 1 1 = Some out
+    /\ seq_agree k0 v0 2 /\ valid (tshape out) [1; 0]
+    /\ (exists t, t < nth 2 (tshape k0) 0 /\ kept_at m0 (ins 1 t [0]) = true)
+    /\ kept_at m0 (ins 1 2 [0]) = false
+    /\ (forall x, (0 < expf x)%Q)
+    /\ (tat out [1%nat; 0%nat] == 34 # 7)%Q.
+Proof.
+  cbv zeta. eexists. split; [vm_compute; reflexivity|].
+  split; [reflexivity|]. split; [repeat constructor|].
+  split; [exists 0; split; [cbn; lia|reflexivity]|].
+  split; [reflexivity|]. split; [intros x; nra|]. vm_compute. reflexivity.
+Qed.
+
+Example c20_mha_nonvacuous :
+  let expf := fun x : Q => (x * x + 1)%Q in
+  let P := mkMHA 2 1 1 1 [[1; 0]; [0; 1]]%Q (Some [1; 0]%Q) [[1; 0]; [0; 1]]%Q None
+                 [[1; 0]; [0; 1]]%Q None [[1; 0]; [0; 1]]%Q None in
+  let q0 := qt [2; 2] [1; -2; 0; 1]%Q in
+  let k0 := qt [2; 2; 3] [1; 0; 2; 1; -1; 3; 0; 0; 1; 1; 2; 2]%Q in
+  let v0 := qt [2; 2; 3] [1; 2; 3; 4; 5; 6; 7; 8; 9; 10; 11; 12]%Q in
+  let m0 := Some (bt [2; 3] [true; false; true; true; false; true]) in
+  exists out,
+    mha expf (score (fun x => x) (Dot 1)) P q0 k0 v0 m0 2 0 2 2 2 = Some out
+    /\ seq_agree k0 v0 2 /\ valid (tshape out) [1; 0]
+    /\ length (WQ P) = num_heads P * d_q P.
+Proof.
+  cbv zeta. eexists. split; [vm_compute; reflexivity|].
+  split; [reflexivity|]. split; [repeat constructor|]. reflexivity.
+Qed.
